@@ -142,6 +142,17 @@ Definition case_ok (c : tcase) : bool :=
 
 Definition mismatches (cs : list tcase) : list N := failing (map case_ok cs).
 
+(* stress cases: deliveries issued concurrently; the answers of the individual calls are not
+   recorded.  What the processor and the saver received does not depend on the interleaving
+   (TxProofs.processed_once: every delivered transaction exactly once), so it is compared with the
+   model run over the deliveries in program order. *)
+Definition stress_ok (c : tcase) : bool :=
+  let '(_, mouts) := run [] (tc_ops c) in
+  let p := processed (tc_ops c) mouts in
+  perm_eqbN (map fst p) (tc_processed c) &&
+  perm_eqbN (map fst (filter snd p)) (tc_saved c).
+Definition mismatches_stress (cs : list tcase) : list N := failing (map stress_ok cs).
+
 (* concurrent cases: the calls were issued at the same instant from different goroutines; the
    recorded answers must be those of some sequential order of the calls *)
 Fixpoint insert_all {A} (x : A) (l : list A) : list (list A) :=
